@@ -10,7 +10,7 @@ from vlib import core, slicecheck, fcutil
 from vlib.core import Infra
 
 LEVEL = "model_checking"
-CTXS = ["plain", "let", "if", "arm", "lambda", "afterfull", "afterdflt", "untyped", "untypedlambda"]
+CTXS = ["plain", "let", "if", "arm", "lambda", "afterfull", "afterdflt", "callresult", "payloadvar", "untyped", "untypedlambda"]
 UNTYPED = ("untyped", "untypedlambda")
 
 
@@ -31,7 +31,7 @@ def arm_lines(cfg, ind):
 def render(cid, cfg, ctx):
     u = "U%d" % cid
     f = "f%d" % cid
-    need_frt = any(c["p"] for c in cfg["cases"]) or ctx == "if"
+    need_frt = any(c["p"] for c in cfg["cases"]) or ctx in ("if", "payloadvar")
     if ctx in UNTYPED:
         # the forms available without a known target type: ignore / none
         cfg = dict(cfg, arms=[dict(a, form=("ignore" if a["form"] == "bind" else a["form"])) for a in cfg["arms"]])
@@ -55,6 +55,15 @@ def render(cid, cfg, ctx):
             full = {"arms": full["arms"][:1], "dflt": True}
         s += "let e%d (u:%s) =\n  match u with\n%s\n\n" % (cid, u, arm_lines(full, "  "))
         s += "let %s (u:%s) =\n  match u with\n%s\n" % (f, u, arm_lines(cfg, "  "))
+    elif ctx == "callresult":
+        # the target gets its union type from a call result; an earlier function mentions the union (inference has touched it)
+        s += "let id%d (x:%s) =\n  x\n\n" % (cid, u)
+        s += "let %s (v:%s) =\n  let u = id%d v\n  match u with\n%s\n" % (f, u, cid, arm_lines(cfg, "  "))
+    elif ctx == "payloadvar":
+        # the target is the payload variable of an outer match
+        s += "type W%d =\n| Wrap%d of %s\n| Other%d\n\nlet id%d (x:%s) =\n  x\n\n" % (cid, cid, u, cid, cid, u)
+        s += "let %s (v:%s) =\n  let w = Wrap%d (id%d v)\n  match w with\n  | Wrap%d u ->\n    match u with\n%s\n  | _ -> 0\n" % (
+            f, u, cid, cid, cid, arm_lines(cfg, "    "))
     elif ctx == "untyped":
         s += "let %s u =\n  match u with\n%s\n" % (f, arm_lines(cfg, "  "))
     elif ctx == "untypedlambda":
